@@ -183,6 +183,30 @@ def cases(rng, tier):
             # evaluated exactly once: a module that counts evaluations cannot exist (no state), so use identity + the model's event counts
             yield Case(program=f"({imp}) ({imp}) ({imp}) ㅁㄹㅎㄹ", fs=fs, mode='events', tag='unique:once')
 
+    # literal imports written *inside a module file that lives in a sub-directory*: the search starts from the working
+    # directory like every other literal import, not from the directory of the importing file — a look-alike sibling of
+    # the importing module does not shadow the top-level module, and a module found only beside the importer is not found
+    # (seeded change S15l searched the importing file's directory first)
+    for inner, top, beside in [("다 ㅂㅎㄴ", "ㄴ", "ㄷ"), ("다 ㅂㅎㄴ", None, "ㄷ"), ("다 ㅂㅎㄴ", "ㄴ", None), ("가 다 ㅂㅎㄷ", "ㄴ", "ㄷ"),
+                               ("(다 ㅂㅎㄴ) (다 ㅂㅎㄴ) ㅁㄹㅎㄷ", "ㄹ", "ㅁ"), ("ㄱㅇㄱ (다 ㅂㅎㄴ) ㄷㅎㄷ ㅎ", "ㄴ", "ㄷ")]:
+        for sub in ("가", "가/마"):
+            fs = {sub + "/나.pbhhg": inner.encode()}
+            if top is not None:
+                fs["다.pbhhg"] = top.encode()
+            if beside is not None:
+                fs[sub + "/다.pbhhg"] = beside.encode()
+            lits = " ".join(sub.split("/")) + " 나"
+            k = len(sub.split("/")) + 1
+            by_lit = f"{lits} ㅂㅎ{gen.enc(k)}"
+            by_path = render(bi('ㅂ', str_lit(sub + "/나.pbhhg")))
+            call = " ㄹ ㅎㄴ" if inner.endswith("ㅎ") and "ㅇ" in inner else ""
+            for imp in (by_lit, by_path):
+                imp = f"({imp})"
+                prog = f"ㄹ {imp} ㅎㄴ" if call else imp
+                yield Case(program=prog, fs=fs, tag='nested-literal-import')
+                yield Case(program=f"({prog}) (ㄱㅇㄱ ㅎ) ㅅㄷㅎㄷ", fs=fs, tag='nested-literal-import-caught')
+            yield Case(program=f"(다 ㅂㅎㄴ) (ㄱㅇㄱ ㅎ) ㅅㄷㅎㄷ", fs=fs, tag='nested-literal-import-top')
+
 
 SPEC = {
     'lean': ['C15'],
